@@ -201,9 +201,10 @@ theorem C02_da_only_converges_first_run (g : GoodChain C.sync ch top) (dc : Dist
   exact run_converges g dc hi hc hnf hreach
 
 /-- **link to C01**: the same for every chain the producer model commits (any sequencing-layer responses), under
-`EmptyCommitmentUnique` (a SHA-256 second pre-image would be needed otherwise) -/
+`EmptyCommitmentUnique` **of that chain** (no block of the chain in hand is a second pre-image of the empty
+commitment — a statement about its finitely many blocks, see `Spec.C02.goodChain_of_producer_or_collision`) -/
 theorem C05_da_only_recovers_producer {pc : Producer.Cfg} {pn : Producer.Node} (hi : Producer.Inv pc pn)
-    (hm : Producer.MetaInv pc pn) (hcol : Spec.C02.EmptyCommitmentUnique)
+    (hm : Producer.MetaInv pc pn) (hcol : Spec.C02.EmptyCommitmentUnique (Spec.C02.chainOf pc pn))
     (C : FullNode.Cfg) (hC : C.sync = Spec.C02.syncCfg pc)
     (dc : DistinctCommitments (Spec.C02.chainOf pc pn))
     (ops : List HOp) (hops : ∀ op ∈ ops, OpOK C (Spec.C02.chainOf pc pn) op) (hda : ∀ op ∈ ops, isP2P op = false)
